@@ -66,6 +66,24 @@ CHECKS = {
         note="double-step flag asserted only for pawn moves of exactly two ranks (true) and non-pawn / <=1 rank moves (false)",
         ref="DESIGN.md 6 C20",
     ),
+    "C03": dict(
+        technique="stateful property-based testing: generated histories of searches sharing one search memory, seeded baton scheduler for worker interleavings, legality oracle on every reported line",
+        text="Generated-input search over histories (1-6 searches on one artifact: same placement with different rights/ep, games, unrelated positions; table geometries down to 1x1), depths, seeds, 1-32 workers under a seeded scheduler at the shared-table accesses, optional node-clock Stop: no panic, every move of every reported line legal by the rules oracle, at least one report.",
+        note=ORACLE + "; interleavings sampled by schedule seed at table-operation granularity; chance hash collisions out of reach",
+        ref="DESIGN.md 6 C03",
+    ),
+    "C04": dict(
+        technique="property-based testing with a deterministic node clock (cancellation instant and overrun measured in nodes through a cfg hook) plus generated Stop/drop scripts against the real thread wrapper under a watchdog",
+        text="Generated-input search: roots incl. terminal and low-mobility positions, depth none/small/huge, 1-32 scheduled workers, Stop raised by a node clock at generated instants: no panic, at most 5 x 10000 x workers nodes after Stop, terminal roots report nothing and return, returned artifact seeds the next search. Public Searcher::analyze driven by generated scripts (Stop now/after first event/after completion/twice, drop receiver): join() returns Ok within a 60 s watchdog while the sender is still held.",
+        note="liveness decided in nodes on the synchronous path; wall-clock watchdog (>=100x typical) only for the thread/channel wrapper",
+        ref="DESIGN.md 6 C04",
+    ),
+    "C15": dict(
+        technique="model-based stateful property testing (generated insert/find/entries op lists over colliding key universes against a routing-agnostic reference map) plus multi-thread stress",
+        text="Generated-input search: after every operation the private table (through a cfg hook) is compared with a reference model: find returns nothing or the latest payload under exactly that key, keys vanish only on inserts of other keys, at most one per insert and never below 8 resident keys, entries() equals the number of retrievable keys and never exceeds capacity; 2-32 real threads with owned and shared keys.",
+        note="table operations are atomic under per-sub-table locks, so tagged sequential op lists are the interleaving space at operation granularity; the real-thread part is stress without schedule control",
+        ref="DESIGN.md 6 C15",
+    ),
 }
 
 NOT_YET = {
